@@ -292,3 +292,7 @@ func LockModel(on bool) {}
 
 // Origin has no native twin.
 func Origin(v any) string { return "" }
+
+// BatchSizes / SpontaneousFlush have no native twin.
+func BatchSizes(on bool)       {}
+func SpontaneousFlush(on bool) {}
